@@ -360,93 +360,104 @@ def check_property(src, res, log, schema, fix):
     pairs = [(a, b) for (_, a), (_, b) in zip(sa, ra)]
 
     def chains(i, j):
-        """all ways to explain pairs[i:] with rlog[j:] -> list of list of (pair_index, [entries])"""
+        """generator: every way to explain pairs[i:] with rlog[j:] as [(pair_index, [entries])] (chains of exact texts)"""
         if i == len(pairs):
-            return [[]] if j == len(rlog) else []
+            if j == len(rlog):
+                yield []
+            return
         a, b = pairs[i]
-        outs = []
-        # k entries for this assignment
         cur_txt = vtext(a.value)
-        k = 0
         jj = j
         seq = []
+        may_change = a.key in schema.fields
         while True:
-            endtxt_ok = (k == 0 and same_value(a.value, b.value)) or (k > 0 and vtext(b.value) == seq[-1][2])
-            if endtxt_ok:
-                for rest in chains(i + 1, jj)[:1]:
-                    outs.append([(i, list(seq))] + rest)
-                if outs:
-                    return outs
-            if jj < len(rlog) and cur_txt is not None and rlog[jj][1] == cur_txt:
+            end_ok = (not seq and same_value(a.value, b.value)) or (seq and vtext(b.value) == seq[-1][2]
+                                                                    and not (isinstance(b.value, str) and seq[-1][0] == "TYPE_COERCION")
+                                                                    and not (not isinstance(b.value, str) and seq[-1][0] == "ENUM_CASEFOLD"))
+            if end_ok:
+                for rest in chains(i + 1, jj):
+                    yield [(i, list(seq))] + rest
+            if may_change and jj < len(rlog) and cur_txt is not None and rlog[jj][1] == cur_txt and isinstance(a.value, str):
                 seq.append(rlog[jj])
                 cur_txt = rlog[jj][2]
                 jj += 1
-                k += 1
             else:
-                return outs
-    sol = chains(0, 0)
-    if not sol:
-        bad.append(("the log is not the ordered list of before/after differences between input and output", None))
-        return bad
-    for i, seq in sol[0]:
-        a, b = pairs[i]
-        if not seq:
-            continue
-        fd = schema.fields.get(a.key)
-        cs = []
-        if fd is not None and fd.pattern is not None and fd.pattern.constraints is not None:
-            cs = fd.pattern.constraints.constraints
-        if not cs:
-            bad.append((f"value of {a.key} changed but the schema gives no constraint for it", None))
-            continue
-        cur = a.value
-        for n_e, e in enumerate(seq):
-            rule, before, after, tier = e
-            last = n_e == len(seq) - 1
-            if rule == "ENUM_CASEFOLD":
-                enums = [c for c in cs if isinstance(c, EnumConstraint)]
-                ok = False
-                for c in enums:
-                    m = [x for x in c.allowed_values if x.lower() == before.lower()]
-                    if len(m) == 1 and m[0] == after and before not in c.allowed_values and before != after:
-                        ok = True
-                        if not c.evaluate(after).valid:
-                            bad.append((f"{a.key}: casefolded value does not satisfy ENUM", None))
-                if not ok:
-                    bad.append((f"{a.key}: '{before}'->'{after}' is not a case change to the single case-insensitive ENUM match", None))
-                cur = after
-            elif rule == "TYPE_COERCION":
-                if not any(isinstance(c, TypeConstraint) and c.expected_type == "NUMBER" for c in cs):
-                    bad.append((f"{a.key}: number coercion without TYPE[NUMBER]", None))
-                newv = b.value if last else None
-                if last:
+                return
+
+    def judge(sol):
+        out = []
+        for i, seq in sol:
+            a, b = pairs[i]
+            if not seq:
+                continue
+            fd = schema.fields.get(a.key)
+            cs = []
+            if fd is not None and fd.pattern is not None and fd.pattern.constraints is not None:
+                cs = fd.pattern.constraints.constraints
+            if not cs:
+                out.append((f"value of {a.key} changed but the schema gives no constraint for it", None))
+                continue
+            for n_e, e in enumerate(seq):
+                rule, before, after, tier = e
+                last = n_e == len(seq) - 1
+                if rule == "ENUM_CASEFOLD":
+                    enums = [c for c in cs if isinstance(c, EnumConstraint)]
+                    ok = False
+                    for c in enums:
+                        m = [x for x in c.allowed_values if x.lower() == before.lower()]
+                        if len(m) == 1 and m[0] == after and before not in c.allowed_values and before != after:
+                            ok = True
+                            if not c.evaluate(after).valid:
+                                out.append((f"{a.key}: casefolded value does not satisfy ENUM", None))
+                    if not ok:
+                        out.append((f"{a.key}: '{before}'->'{after}' is not a case change to the single case-insensitive ENUM match", None))
+                elif rule == "TYPE_COERCION":
+                    if not any(isinstance(c, TypeConstraint) and c.expected_type == "NUMBER" for c in cs):
+                        out.append((f"{a.key}: number coercion without TYPE[NUMBER]", None))
+                    if not last:
+                        out.append((f"{a.key}: an entry follows a number coercion", None))
+                        continue
+                    newv = b.value
                     if isinstance(newv, bool) or not isinstance(newv, (int, float)):
-                        bad.append((f"{a.key}: coerced value is not a number", None))
+                        out.append((f"{a.key}: coerced value is not a number", None))
                         continue
                     if not TypeConstraint("NUMBER").evaluate(newv).valid:
-                        bad.append((f"{a.key}: coerced value does not satisfy TYPE[NUMBER]", None))
+                        out.append((f"{a.key}: coerced value does not satisfy TYPE[NUMBER]", None))
                     if isinstance(newv, float) and not math.isfinite(newv):
-                        bad.append((f"{a.key}: coerced to non-finite {newv!r}", None))
+                        out.append((f"{a.key}: coerced to non-finite {newv!r}", None))
                         continue
                     try:
                         back = float(after) if isinstance(newv, float) else int(after)
                         if back != newv or type(back) is not type(newv):
-                            bad.append((f"{a.key}: logged after-text {after!r} does not re-read to the new number", None))
+                            out.append((f"{a.key}: logged after-text {after!r} does not re-read to the new number", None))
                     except ValueError:
-                        bad.append((f"{a.key}: logged after-text {after!r} is not readable", None))
+                        out.append((f"{a.key}: logged after-text {after!r} is not readable", None))
                     ex = exact_value_of_text(before.strip())
                     if ex is not None:
                         if newv == 0 and ex != 0:
-                            bad.append((f"{a.key}: non-zero literal {before!r} became {newv!r}", "underflow"))
+                            out.append((f"{a.key}: non-zero literal {before!r} became {newv!r}", "underflow"))
                         elif isinstance(newv, int) and ex != newv:
-                            bad.append((f"{a.key}: integer text {before!r} became {newv!r}", None))
+                            out.append((f"{a.key}: integer text {before!r} became {newv!r}", None))
                         elif isinstance(newv, float) and newv != 0 and ex != 0:
                             rel = abs((decimal.Decimal(newv) - ex) / ex)
                             if rel > decimal.Decimal(2) ** -52 and abs(ex) >= decimal.Decimal("2.2250738585072014e-308"):
-                                bad.append((f"{a.key}: {before!r} -> {newv!r} is not the nearest double", None))
-                cur = newv
-            else:
-                bad.append((f"{a.key}: changed by unknown rule {rule}", None))
+                                out.append((f"{a.key}: {before!r} -> {newv!r} is not the nearest double", None))
+                else:
+                    out.append((f"{a.key}: changed by unknown rule {rule}", None))
+        return out
+    best = None
+    for n_sol, sol in enumerate(chains(0, 0)):
+        j = judge(sol)
+        # prefer a decomposition with no unattributed complaint, then the fewest complaints
+        score = (sum(1 for _, c in j if c is None), len(j))
+        if best is None or score < best[0]:
+            best = (score, j)
+        if score[0] == 0 or n_sol > 300:
+            break
+    if best is None:
+        bad.append(("the log is not the ordered list of before/after differences between input and output", None))
+        return bad
+    bad += best[1]
     # ambiguous / non matching enum never replaced is implied by the allowed-change predicate above
     return bad
 
